@@ -11,11 +11,11 @@ RULE = (
     "must reproduce the bytes, also under inter-token whitespace perturbation (runs of spaces, \\n, \\r\\n, tabs, leading/trailing); extended rendering compared token-by-token with the "
     "reference; hand-made token strings: names/aliases/even hex accepted, odd-length hex / non-hex / unknown OP_ rejected. non-trivial = distinct minimally-pushed script with >=1 push or conditional"
 )
-ASSUMPTIONS = ["reference renderer/parser vf/ref/asm.py", "no claim for: case-insensitivity, whitespace inside a token, a bare newline with no surrounding space, OP_FALSE/OP_TRUE spellings, OP_PUSHDATAn names used as bare tokens"]
+ASSUMPTIONS = ["reference renderer/parser vf/ref/asm.py", "opcode names are the exact upper-case spellings (hex data is case-insensitive); no claim for: whitespace inside a token, a bare newline with no surrounding space, OP_FALSE/OP_TRUE spellings, OP_PUSHDATAn names used as bare tokens"]
 NSHARDS = {"quick": 32, "thorough": 64}
 BUDGET_S = {"quick": 200, "thorough": 1800}
 MIN_HITS = {
-    'quick': {"exh2": 71442, "grammar": 800, "ws": 1360, "xasm": 79360, "digit_push": 34805, "reject_case": 159, "accept_case": 225, "conditional": 25788},
+    'quick': {"exh2": 71442, "grammar": 800, "ws": 1360, "xasm": 79360, "digit_push": 34805, "reject_case": 163, "accept_case": 220, "conditional": 25788},
     'thorough': {"exh2": 85730, "grammar": 192000, "ws": 325530, "xasm": 277957, "digit_push": 111679, "reject_case": 46023, "accept_case": 69177, "conditional": 127284, "push>=65536": 5353},
 }
 SEPS = [" ", "  ", "     ", " \n ", " \r\n ", " \n\n ", " \t ", "\n ", " \n", " \r\n", "\t "]
@@ -74,7 +74,7 @@ def cases(ctx):
         good = [r.choice(names) if r.random() < 0.6 else gen.rbytes(r, r.choice([1, 2, 3, 20, 76])).hex() for _ in range(r.randrange(1, 6))]
         good = [g for g in good if g not in ("OP_IF", "OP_NOTIF", "OP_VERIF", "OP_VERNOTIF", "OP_ELSE", "OP_ENDIF", "OP_PUSHDATA1", "OP_PUSHDATA2", "OP_PUSHDATA4")] or ["OP_1"]
         yield {"k": "text", "text": " ".join(good), "expect": "accept"}
-        bad = r.choice(["abc", "0x51", "OP_FOO", "OP_1X", "zz", "12345", "OP_", "51 5", "g0", "-1", "17", "OP_CHECKSIGX", "1a2", "OP_DUP,", "0b"])
+        bad = r.choice(["abc", "0x51", "OP_FOO", "OP_1X", "zz", "12345", "OP_", "51 5", "g0", "-1", "17", "OP_CHECKSIGX", "1a2", "OP_DUP,", "0b", "op_dup", "Op_Dup", "OP_dup", "op_if", "op_1", "oP_cHECKSIG", "op_0", "OP_endif"])
         j = r.randrange(len(good) + 1)
         yield {"k": "text", "text": " ".join(good[:j] + [bad] + good[j:]), "expect": "reject"}
 
